@@ -4,6 +4,9 @@
 REPO="${1:-/repo}"
 OUT="$(mktemp /dev/shm/baseline.XXXXXX.xml 2>/dev/null || mktemp)"
 cd "$REPO" || exit 3
+# the suite's logger test leaves EMD_TestLogFile* behind in the temp dir: give it a private one
+export TMPDIR="$(mktemp -d /dev/shm/baseline_tmp.XXXXXX 2>/dev/null || mktemp -d)"
+trap 'rm -rf "$TMPDIR"' EXIT
 env -u EMD_VERIF /venv/bin/python -m pytest -ra -q -p no:cacheprovider --timeout=900 --continue-on-collection-errors --junitxml="$OUT" >/dev/null 2>&1
 /venv/bin/python - "$OUT" <<'PY'
 import json, sys, xml.etree.ElementTree as ET
